@@ -18,7 +18,8 @@ MANIFEST = dict(
          "sketcher kinds f32/f64/u32/u64 x FNV/no-op/xxhash32 x m in {1,2,3,8,64} x shapes disjoint/nested/equal/1-vs-1000/"
          "m > n) mean within the empirical-Bernstein radius (delta=1e-9) of J and MSE below J(1-J)/m; primitive law of a "
          "single-item SuperMinHash sketch: integer parts always a permutation, each permutation equally frequent (m <= 4), "
-         "fractional parts uniform (DKW) and pairwise independent (4x4 joint cells).",
+         "fractional parts uniform (DKW) and pairwise independent (4x4 joint cells)."
+         " Cells also run both sets through one sketcher object reused with reinit, and the primitive law is checked up to m = 4096 (integer parts of f32 sketches).",
     design_ref="DESIGN.md section 2.6 and section 4, C03",
     note="statistical test for L3: effects below the radii are invisible; false-alarm probability <= 1e-9 per cell; L1 is "
          "exact but only for the three tiny sizes",
